@@ -27,6 +27,8 @@ import Mathlib.Tactic.Tauto
 set_option linter.unusedSectionVars false
 set_option linter.unusedVariables false
 set_option linter.unnecessarySeqFocus false
+set_option linter.unusedTactic false
+set_option linter.unreachableTactic false
 namespace ZV.P06
 open ZV ZV.Gen ZV.Ci ZV.L
 
@@ -40,14 +42,18 @@ theorem sens_ci_linear (ppf : F → F) (det cases α : F) (confint : String) (r 
     (r.lower, r.upper) = linCI r.point (zOf ppf α) r.se := by
   unfold sensitivity at h
   simp only at h
-  split_ifs at h <;> (simp only [Except.ok.injEq] at h; subst h; rfl)
+  split_ifs at h <;>
+    (simp only [Except.ok.injEq] at h; subst h
+     first | rfl | (simp only [linCI, zOf, Prod.mk.injEq]; constructor <;> ring))
 
 theorem spec_ci_linear (ppf : F → F) (det nc α : F) (confint : String) (r : Results F)
     (h : specificity ppf det nc α confint = .ok r) :
     (r.lower, r.upper) = linCI r.point (zOf ppf α) r.se := by
   unfold specificity at h
   simp only at h
-  split_ifs at h <;> (simp only [Except.ok.injEq] at h; subst h; rfl)
+  split_ifs at h <;>
+    (simp only [Except.ok.injEq] at h; subst h
+     first | rfl | (simp only [linCI, zOf, Prod.mk.injEq]; constructor <;> ring))
 
 /-- point estimate and standard error do not depend on alpha -/
 theorem sens_indep_alpha (ppf : F → F) (det cases α₁ α₂ : F) (confint : String) (r₁ r₂ : Results F)
@@ -160,7 +166,7 @@ theorem ppv_bayes (se sp p v : F) (h : ppv_converter se sp p = .ok v) :
   split_ifs at h with h1 h2
   simp only [Except.ok.injEq] at h
   simp only [gt_iff_lt, not_or, not_lt] at h1 h2
-  exact ⟨h.symm, ⟨h2.1, h1.1⟩, ⟨h2.2.1, h1.2.1⟩, ⟨h2.2.2, h1.2.2⟩⟩
+  exact ⟨by first | exact h.symm | (rw [← h]; ring), ⟨h2.1, h1.1⟩, ⟨h2.2.1, h1.2.1⟩, ⟨h2.2.2, h1.2.2⟩⟩
 
 /-- NPV = Sp·(1−P) / (Sp·(1−P) + (1−Se)·P) -/
 theorem npv_bayes (se sp p v : F) (h : npv_converter se sp p = .ok v) :
@@ -169,7 +175,7 @@ theorem npv_bayes (se sp p v : F) (h : npv_converter se sp p = .ok v) :
   split_ifs at h with h1 h2
   simp only [Except.ok.injEq] at h
   simp only [gt_iff_lt, not_or, not_lt] at h1 h2
-  exact ⟨h.symm, ⟨h2.1, h1.1⟩, ⟨h2.2.1, h1.2.1⟩, ⟨h2.2.2, h1.2.2⟩⟩
+  exact ⟨by first | exact h.symm | (rw [← h]; ring), ⟨h2.1, h1.1⟩, ⟨h2.2.1, h1.2.1⟩, ⟨h2.2.2, h1.2.2⟩⟩
 
 /-- a returned predictive value is a probability -/
 theorem ppv_unit (se sp p v : F) (h : ppv_converter se sp p = .ok v) : 0 ≤ v ∧ v ≤ 1 := by
@@ -283,7 +289,8 @@ theorem semibayes_lin_def (ppf sf : F → F) (m0 pl pu m l u α : F) :
              (Transc.sqrt (postVar (seOfLimits pl pu (zOf ppf α) * seOfLimits pl pu (zOf ppf α))
                (seOfLimits l u (zOf ppf α) * seOfLimits l u (zOf ppf α))))).2) := by
   simp only [semibayes, Bool.false_eq_true, if_false, zOf, linCI, postMean, postVar, seOfLimits, Nat.cast_one,
-    Nat.cast_ofNat, mul_one_div]
+    Nat.cast_ofNat, Except.ok.injEq, Prod.mk.injEq]
+  refine ⟨?_, ?_, ?_⟩ <;> ring_nf
 
 /-- `ln_transform=True`: the same computation on the logarithms of the six inputs, exponentiated at the end -/
 theorem semibayes_log_def (ppf sf : F → F) (m0 pl pu m l u α : F) :
